@@ -99,3 +99,22 @@ Proof.
     + apply wp_ret. exact Hc.
     + apply wp_ret. exact Hc.
 Qed.
+
+(* the same with an invariant indexed by the elements already processed *)
+Lemma wp_for_each_ix {A} (body : A -> M ctl) (I : list A -> pset -> Prop) (Q : ctl -> pset -> Prop) (l : list A) :
+  (forall s, I l s -> Q Next s) ->
+  (forall pre x rest, l = pre ++ x :: rest -> forall s, I pre s ->
+     wp (body x) (fun c s' => match c with Next => I (pre ++ [x]) s' | _ => Q c s' end) s) ->
+  forall s, I [] s -> wp (for_each l body) Q s.
+Proof.
+  intros HN HB.
+  assert (K : forall rest pre, l = pre ++ rest -> forall s, I pre s -> wp (for_each rest body) Q s).
+  { induction rest as [|x rest IH]; intros pre E s HI; cbn [for_each].
+    - apply wp_ret. apply HN. rewrite E, app_nil_r. exact HI.
+    - apply wp_bind. eapply wp_conseq. apply (HB pre x rest E s HI).
+      intros c s' Hc. destruct c.
+      + apply (IH (pre ++ [x])); [|exact Hc]. rewrite <- app_assoc. exact E.
+      + apply wp_ret. exact Hc.
+      + apply wp_ret. exact Hc. }
+  intros s HI. apply (K l []); [reflexivity|exact HI].
+Qed.
